@@ -64,11 +64,22 @@ def gen_ops(ctx):
                                                 " | ".join(plane(vals(r, base, w * h, r.choice(["const", "two", "rand", "narrow"]))) for _ in range(3))))
     # ---- morphology: shapes x kernel sizes 1,3,5 (7) x structuring elements (symmetric and not) x centres
     M = 8 if th else 5
-    def se(ks, sym):
+    def se(ks, kind):
+        """kind 0: point-symmetric and transpose-invariant (cross, square, disc-like); 1: point-symmetric only
+           (e.g. a horizontal line: hits the known finding C16-morph-se-transposed); 2: arbitrary"""
         k = [[r.below(2) for _ in range(ks)] for _ in range(ks)]
-        if sym:
+        if kind <= 1:
             for a in range(ks):
                 for b in range(ks): k[ks - 1 - a][ks - 1 - b] = k[a][b]
+        if kind == 0:
+            for a in range(ks):
+                for b in range(ks): k[b][a] = k[a][b]
+            for a in range(ks):
+                for b in range(ks): k[ks - 1 - a][ks - 1 - b] = k[a][b]
+            for a in range(ks):
+                for b in range(ks): k[b][a] = k[a][b]
+        if kind == 1 and ks >= 3 and r.chance(1, 3):
+            k = [[0] * ks for _ in range(ks)]; k[ks // 2] = [1] * ks          # horizontal line
         if r.chance(1, 8): k = [[1] * ks for _ in range(ks)]
         if r.chance(1, 10): k = [[0] * ks for _ in range(ks)]
         return [k[a][b] * r.choice([1, 1, 2, 255]) for a in range(ks) for b in range(ks)]
@@ -77,14 +88,14 @@ def gen_ops(ctx):
             for h in range(1, M + 1):
                 for ks in ((1, 3, 5, 7) if th else (1, 3, 5)):
                     for rep in range(3 if ch == "u8" else 1):
-                        sym = r.chance(2, 3)
+                        kind = r.choice([0, 0, 0, 1, 2])
                         c = ks // 2
-                        cy, cx = (c, c) if sym else (r.below(ks), r.below(ks))
-                        ops.append("mo %s %d %d %d %d %d %d | %s | %s" % (ch, w, h, ks, cy, cx, r.choice([1, 1, 2, 3, 0]), plane(se(ks, sym)),
+                        cy, cx = (c, c) if kind <= 1 else (r.below(ks), r.below(ks))
+                        ops.append("mo %s %d %d %d %d %d %d | %s | %s" % (ch, w, h, ks, cy, cx, r.choice([1, 1, 2, 3, 0]), plane(se(ks, kind)),
                                                                         plane(vals(r, ch, w * h, r.choice(["rand", "rand", "two", "const", "narrow"])))))
     for _ in range(150 if th else 40):
         w, h, ks = r.range(1, M), r.range(1, M), r.choice([1, 3, 5])
-        ops.append("mo rgb8 %d %d %d %d %d %d | %s | %s" % (w, h, ks, ks // 2, ks // 2, r.choice([1, 2]), plane(se(ks, True)),
+        ops.append("mo rgb8 %d %d %d %d %d %d | %s | %s" % (w, h, ks, ks // 2, ks // 2, r.choice([1, 2]), plane(se(ks, 0)),
                                                         " | ".join(plane(vals(r, "u8", w * h, "rand")) for _ in range(3))))
     # ---- median: all shapes x odd kernel sizes 1,3,5 (7,9)
     for ch in ("u8", "i8", "u16", "i16"):
